@@ -27,7 +27,26 @@ type c14Pet struct {
 	*C14Dog
 }
 
+// text marshalers of slice kind (net.IP-like), struct kind, and by pointer:
+// all advertised as strings (non-null unless by pointer)
+type c14Tags []string
+
+func (t c14Tags) MarshalText() ([]byte, error) {
+	out := ""
+	for _, s := range t {
+		out += s + ","
+	}
+	return []byte(out), nil
+}
+
+type c14Uid struct{ N byte }
+
+func (u c14Uid) MarshalText() ([]byte, error) { return []byte{'u', 'a' + u.N%8}, nil }
+
 type c14Thing struct {
+	Tags   c14Tags
+	Uid    c14Uid
+	PUid   *c14Uid
 	ID     int64 `graphql:",key"`
 	Num    int64
 	PtrNum *int64
@@ -180,6 +199,16 @@ func VerifC14BuilderConforms() {
 			thing.PtrLst = append(thing.PtrLst, &c14Inner{N: int64(i)})
 		}
 	}
+	switch nondet.Choice("tags", 3) {
+	case 1:
+		thing.Tags = c14Tags{}
+	case 2:
+		thing.Tags = c14Tags{"x", "y"}
+	}
+	thing.Uid = c14Uid{N: byte(len(thing.Tags))}
+	if thing.Tags != nil && len(thing.Tags) == 0 {
+		thing.PUid = &c14Uid{N: 3}
+	}
 	petKind := nondet.Choice("pet", 3)
 	methodNil := nondet.Choice("methodNil", 2) == 1
 	q := s.Query()
@@ -244,7 +273,7 @@ func VerifC14BuilderConforms() {
 	})
 	schema := s.MustBuild()
 
-	body := "{ iD num ptrNum str flag color inner { n } ptrIn { n } list ptrLst { n } double maybe must { n } bInner { n } bPtr { n } bList bNum }"
+	body := "{ tags uid pUid iD num ptrNum str flag color inner { n } ptrIn { n } list ptrLst { n } double maybe must { n } bInner { n } bPtr { n } bList bNum }"
 	text := "{ thing " + body + " thingPtr " + body + " pet { __typename ... on C14Cat { name } ... on C14Dog { age } } }"
 	query, err := graphql.Parse(text, nil)
 	nondet.Assert(err == nil, "parses")
